@@ -13,9 +13,15 @@ from harness.common import Ck, coq_list, coq_str, coq_bytes, parse_coq_N_list
 from translate import c19_walk
 
 MANIFEST = dict(
-    technique='Rocq proof (backends as operation lists refining one folded-name map; walk_folder exactness for the sound folder forms; chain first-match / priority / de-duplication laws) + ast translator of every normalisation and folder test + vm_compute correspondence + differential oracle over four real backends and chains',
-    text='Theorems in Props/C19.v, generic over a backend record of normalisation operations: any two backends whose key functions are of a recognised case/slash-insensitive form agree with each other and with the specification map (folded name -> last stored file) on _get_file, _file_exists and open_bin; the directory backend agrees on exact names; walk_folder with a sound folder form lists exactly the surviving files whose folded name has the folded folder as a path prefix (empty folder = all), every listed name looks up to that file, no name twice; FileSystemChain._get_file returns the first member that has the name, priority insertion puts a member first, restricted members are asked for prefix/name, the de-duplicated walk lists each folded name once keeping the first member\'s entry. The plain string-prefix, root-is-dot, case-sensitive and relpath forms of the pinned tree are refuted by kernel-computed witnesses. The operation lists of today\'s filesys.py are regenerated on every run and the premises are discharged as named instance obligations; the generated model is compared with the real Virtual/Zip/VPK/Raw backends and chains on generated file sets; a reference oracle checks the property end to end on the four real backends and on chains of up to 4 members in all orderings.',
-    note='Trusted: Coq kernel + vm_compute, translate/c19_walk.py, zipfile, the VPK writer of vpk.py, the OS directory semantics (RawFileSystem is described, not derived: exact names via os.path.isfile/os.walk). Model restrictions: ASCII case folding only; stored names are clean relative paths with forward slashes; queries are case/slash variants (no "." / ".." / doubled slashes except in the normpath correspondence). The proof that dropping the prefix segments yields the name relative to the prefix for every walked file is not mechanised (refutation witness for relpath + correspondence + oracle only). Which of two stored names differing only in case wins depends on container order (theorem c19_lookup_order_matters_for_case_duplicates); VPK regroups files, see known findings.',
+    technique='Rocq proof (backends as translated operation lists refining one folded-name map for every query string; walk_folder exactness for the sound folder forms; RawFileSystem lookup/walk from its translated operations; chain first-match / priority / prefix / de-duplication laws and their composition: every entry of the chain walk is what the chain lookup returns, and conversely) + fail-closed ast translator of every normalisation, folder test, walk source, add_sys branch and de-duplication shape + instance obligations and an instance theorem at the generated configuration + vm_compute correspondence over the four real backends and chains + differential oracle',
+    text='Theorems in Props/C19.v, generic over a backend record of normalisation operations regenerated from filesys.py on every run. '
+         'Lookup: backends whose query functions convert the slashes, normalise the path and fold the case (today\'s source, obligation *_keys_normalise_every_spelling) agree with each other and with the specification map (folded name -> last stored file) on _get_file, _file_exists and open_bin for EVERY query string; empty and "." segments, either slash and letter case are proved insignificant (c19_normpath_noise, c19_lookup_noise_insensitive); any other recognised form agrees on queries normpath leaves alone (c19_lookup_agree); the pinned forms are refuted on "./x" and ".\\x". '
+         'RawFileSystem, from the operations that reach _resolve_path: an exact-case name in any spelling and either slash finds the stored file in the directory backend and in every folding backend; its walk lists exactly the files below the normalised folder and every listed name looks up. '
+         'walk_folder with a sound form (dictionary source, folded key compared with a folder-boundary prefix) lists exactly the surviving files inside the folder (empty folder = all), every listed name looks up to that file, no name twice; string-prefix, root-is-dot, case-sensitive, container-prefilter (VPK.fileinfos) and container-iteration forms are refuted by kernel-computed witnesses. '
+         'FileSystemChain: _get_file returns the first member that has the name; priority insertion first / plain insertion last (both add_sys branches translated); restricted members are asked for prefix/name; the de-duplicated walk lists each folded name once keeping the first member\'s entry, the dict-overwrite shape is refuted. '
+         'Composition (c19_chain_walk_lookup_closed, c19_chain_walk_complete): for any list of sound members with empty or clean prefixes and an empty or clean folder, every (path, File) the de-duplicated walk lists is exactly what chain[path] returns (first member wins, listed names look up), and every clean name inside the folder that the chain serves is listed with that File; the theorem is re-instantiated at the generated configuration on every run. '
+         'The generated model is compared with the real Virtual/Zip/VPK/Raw backends (lookups in all spellings, walks of normalised and un-normalised folders) and with chains (lookup, walk_folder, walk_folder_repeat); a reference oracle written from the property checks the four real backends and chains of up to 4 members in all orderings, plus non-ASCII case folding for the in-memory and zip backends.',
+    note='Trusted: Coq kernel + vm_compute, translate/c19_walk.py, zipfile, the VPK writer of vpk.py (and VPK.fileinfos only through a shape check), the OS directory semantics (RawFileSystem: exact names via os.path.isfile/open/os.walk after abspath; RootEscapeError belongs to C18). Model restrictions: ASCII case folding only in the model (non-ASCII casefold is searched on the in-memory and zip backends; VPK names are ASCII); stored names are clean relative "/" paths; ".." segments are modelled (full posixpath.normpath) and compared by correspondence but the general noise theorem covers only empty and "." segments; the composition theorems assume empty or clean prefixes and folders (other spellings: correspondence and oracle); absolute paths are outside the statement. Which of two stored names differing only in case wins depends on container order (c19_lookup_order_matters_for_case_duplicates); VPK regroups files, see known finding case-duplicate-winner-vpk-differs. Observations (not violations): RawFileSystem.open_bin of a directory raises IsADirectoryError where the others raise FileNotFoundError; File.path of a lookup differs per backend.',
 )
 
 IMPORTS = ['Coq.Lists.List', 'Coq.NArith.NArith', 'Coq.Bool.Bool', 'SV.SM.FsChain', 'SV.Gen.FsWalk_gen']
@@ -968,14 +974,20 @@ def run(ck: Ck) -> None:
     ck.rule = ('file sets: 1-8 names built from a small vocabulary of folder and file names with mixed case, nesting 0-3, '
                'names that are string prefixes of others (mat / materials), dot-files, extension-less names and (15%) duplicates '
                'differing only in case; queries: exact, lower, upper, swapped and random case, each with /, \\ and mixed '
-               'separators, plus absent names; folders: root, every ancestor folder exact / trailing slash / re-cased / '
-               'backslashed / truncated (no folder boundary), file names, missing; chains: 1-4 members over 1-3 file sets, '
-               'optional subfolder prefix in several spellings, priority flags, every ordering of chains of up to 3 (thorough: 4) members. '
+               'separators, the same path with "./", "//", "/./", "x/../x", a trailing "/" or "/." (each also with backslashes and '
+               're-cased), plus absent names, "", "."; folders: root, every ancestor folder exact / trailing slash / re-cased / '
+               'backslashed / truncated (no folder boundary) / un-normalised (dot, doubled slash, dot-dot, ".", "./"), file names, '
+               'missing; the directory backend gets the exact-case subset in either slash; three fixed non-ASCII sets (ß/SS, final '
+               'sigma, dotted I, ligatures) for the in-memory and zip backends; chains: 1-4 members over 1-3 file sets, optional '
+               'subfolder prefix in several spellings (exact, trailing slash, re-cased, backslashed, "./d", "d/."), priority flags, '
+               'every ordering of chains of up to 3 (thorough: 4) members; walk_folder and walk_folder_repeat. '
                'Distinct = different name list (sets) or member tuple (chains); non-trivial = at least two files / two members.')
     ck.trusted.append('hand-written model SM/FsChain.v interpreted over Gen/FsWalk_gen.v (tied by correspondence on every run)')
     ck.trusted.append('zipfile, srctools.vpk.VPK writer/reader and the OS directory tree used to build the real backends; posixpath')
-    ck.assumptions.append('case folding is modelled for ASCII only; stored names are clean relative paths using "/"')
-    ck.assumptions.append('the platform is POSIX with a case-sensitive file system (RawFileSystem: exact names only)')
+    ck.trusted.append('vpk.py VPK.fileinfos is read only when walk_folder calls it (shape check of its directory pre-filter)')
+    ck.assumptions.append('case folding is modelled for ASCII only (non-ASCII casefold: oracle on the in-memory and zip backends); stored names are clean relative paths using "/"')
+    ck.assumptions.append('the platform is POSIX with a case-sensitive file system (RawFileSystem: exact names only; "\\" is converted by the library, not by the OS)')
+    ck.assumptions.append('composition theorems: member prefixes and the folder argument are empty or clean relative paths (either slash, any case)')
     root = str(ck.scratch)
     ok_t = ck.translate('FsWalk_gen', c19_walk.translate)
     built = ok_t and ck.build(['Props/C19.vo', 'Gen/FsWalk_gen.vo'])
